@@ -1,5 +1,5 @@
 /-
-Invariants of the MultiEndpoint model and the shape of every step (helper file).
+Invariants of the MultiEndpoint model and the shape of every stepRaw (helper file).
 -/
 import GcpVerif.Proofs.MEBasic
 namespace GcpVerif.ME
